@@ -15,7 +15,7 @@ use std::{
     time::Duration,
 };
 
-use super::c04::{base_pair, typed_cfg};
+use super::c04::{base_pair, carrier_cfg as typed_cfg};
 use crate::{
     explore::{Params, explore},
     net::LinkOpts,
